@@ -6,6 +6,8 @@ mod c_path;
 mod c_line;
 mod c_sysl;
 mod c_gate;
+mod c_proc;
+mod c_walk;
 
 use std::io::Write;
 
@@ -77,6 +79,8 @@ fn main() {
         "line" => if replay { replay_loop(&mut out, c_line::replay_line) } else { c_line::run(&opts, &mut out) },
         "sysl" => if replay { replay_loop(&mut out, c_sysl::replay_line) } else { c_sysl::run(&opts, &mut out) },
         "gate" => if replay { replay_loop(&mut out, c_gate::replay_line) } else { c_gate::run(&opts, &mut out) },
+        "proc" => if replay { replay_loop(&mut out, c_proc::replay_line) } else { c_proc::run(&opts, &mut out) },
+        "walk" => if replay { replay_loop(&mut out, c_walk::replay_line) } else { c_walk::run(&opts, &mut out) },
         "path-oracle" => c_path::oracle(&opts, &mut out),
         _ => {
             eprintln!("unknown component {}", comp);
